@@ -43,6 +43,7 @@ def setup(ctx):
     ctx.require("monitor", "l1_scenarios", 500)
     ctx.require("monitor", "responses_judged", 300)
     ctx.require("monitor", "l2_bounded_pipe_scenarios", 20)
+    ctx.require("monitor", "l2_stalled_reader_connections", 12)
     ctx.require("monitor", "l2_scenarios", 20)
     ctx.require("monitor", "l3_connections", 10)
 
@@ -674,6 +675,59 @@ def run_l2_scenario(ctx, scn, tlsbench):
         close_loop(loop)
 
 
+def run_l2_stalled_reader(ctx):
+    """A client that is slower than the server: it stops reading for 3-25 virtual seconds while most of a 300 KB
+    response still sits in the server's buffers (the pipe holds 64 KiB), then reads on.  The wiring is the one
+    start_server() hands to the loop (its ssl_* timeouts included), both backends.  A response is written completely
+    or the connection ends before the header - never header plus half a body."""
+    import contextlib
+    import io
+    import shutil
+    import tempfile
+
+    from nauyaca.server.config import ServerConfig
+
+    from vf import quiet_logs, tlsbench
+    from vf.vloop import close_loop, new_loop
+
+    base = tempfile.mkdtemp(prefix="vf-c01-slow-")
+    try:
+        body = ("0123456789abcdef" * 64 + "\n") * 300
+        with open(os.path.join(base, "big.gmi"), "w", newline="") as f:
+            f.write(body)
+        expected = b"20 text/gemini\r\n" + body.encode()
+        for backend in ("stdlib", "pyopenssl"):
+            with contextlib.redirect_stdout(io.StringIO()):
+                cap = capture_factory(dict(log_level="CRITICAL", enable_rate_limiting=False), ServerConfig(host="127.0.0.1", port=1965, document_root=base, require_client_cert=(backend == "pyopenssl")))
+            quiet_logs()
+            for stall in (3.0, 10.0, 25.0):
+                for first_read in (False, True):
+                    loop = new_loop()
+                    try:
+                        bench = tlsbench.Sandwich(loop, None, capacity=65536, captured=cap)
+                        if not bench.handshake():
+                            ctx.inconclusive_because(f"L2 handshake failed: {bench.error}")
+                            continue
+                        bench.client_send(b"gemini://localhost/big.gmi\r\n")
+                        if first_read:
+                            bench.drain()
+                        loop.advance(stall)
+                        bench.finish()
+                        got = bytes(bench.client_plain)
+                        ctx.count("monitor", "l2_stalled_reader_connections")
+                        wit = {"level": "L2-wired", "backend": backend, "reader": f"{'reads some, ' if first_read else ''}stalls {stall}s, reads on", "pipe": 65536, "expected_bytes": len(expected), "received_bytes": len(got),
+                               "clean_end": bench.client_eof, "discarded_by_forced_close": bench.tcp.discarded}
+                        if got != expected and got:
+                            ctx.violation(f"half-written-response:slow-reader:backend={backend}", f"the client received {len(got)} of {len(expected)} bytes (header and part of the body), then the stream ended", wit)
+                        elif not got:
+                            ctx.undecided("slow-reader:nothing-received")
+                        ctx.case(("L2-stalled", backend, stall, first_read, len(got) == len(expected)), True, sample=wit)
+                    finally:
+                        close_loop(loop)
+    finally:
+        shutil.rmtree(base, ignore_errors=True)
+
+
 def run_l3(ctx):
     """Live loopback sample on both backends: raw TLS client reads to EOF, same automaton.
     Cases where the client sends more than the server needs are undecided here (kernel RST may
@@ -752,6 +806,8 @@ def run(ctx):
     try:
         run_l1(ctx)
         run_l2(ctx)
+        if ctx.mine(1) or ctx.nshards == 1:
+            run_l2_stalled_reader(ctx)
         if ctx.shard == 0:
             run_l3(ctx)
     finally:
